@@ -295,12 +295,122 @@ func gen(g *zv.Gen) {
 			add(scen{ver: v, suite: id, key: keyFor[si.kex][0], tick: 2, alpn: 1})
 		}
 	}
+	nBase := len(scens)
+	// ---- certificate chains of 1..4 certificates: every version x key type (x some suites, tickets, resumption)
+	for _, v := range []int{10, 11, 12, 13} {
+		for _, k := range []string{"rsa", "ecdsa", "ecdsa384", "ed25519"} {
+			if k == "ed25519" && v < 12 {
+				continue
+			}
+			for n := 1; n <= maxChain; n++ {
+				add(scen{ver: v, key: k, chain: n})
+			}
+		}
+		for _, n := range []int{2, 3} {
+			add(scen{ver: v, key: "ecdsa", chain: n, tick: 1, alpn: 1})
+			add(scen{ver: v, key: "rsa", chain: n, tick: 2})
+			add(scen{ver: v, key: "ecdsa", chain: n, opts: optSkipVerify})
+			add(scen{ver: v, key: "rsa", chain: n, opts: optNoBuffer | optForceTicket})
+		}
+	}
+	for _, id := range []uint16{0x002f, 0x0033, 0xc013, 0x009c, 0x009e, 0xc02f, 0xc02b, 0xc009} {
+		si := suiteByID(id)
+		for _, v := range []int{10, 11, 12} {
+			if si.tls12 && v != 12 {
+				continue
+			}
+			for _, n := range []int{2, 3} {
+				add(scen{ver: v, suite: id, key: keyFor[si.kex][0], chain: n})
+			}
+		}
+	}
+	nChain := len(scens)
+	// ---- zcrypto-specific client options x version x (no cache | cache | resumption)
+	vari := 0
+	addOpt := func(v, tick, opts int) {
+		vari++
+		s := scen{ver: v, tick: tick, opts: opts, vari: vari, key: []string{"ecdsa", "rsa", "ecdsa384"}[vari%3]}
+		if opts&optEmptyCurves != 0 {
+			if v == 13 {
+				return // no key share without a curve: not a negotiable configuration
+			}
+			s.key = "rsa"
+			s.opts &^= optCurves
+		}
+		if vari%5 == 0 {
+			s.alpn = 1
+		}
+		if vari%7 == 0 {
+			s.chain = 2 + vari%2
+		}
+		add(s)
+	}
+	allOn := (1<<optCount - 1) &^ optEmptyCurves
+	for _, v := range []int{10, 11, 12, 13} {
+		for _, tick := range []int{0, 1, 2} {
+			for i := 0; i < optCount; i++ {
+				addOpt(v, tick, 1<<i)
+				if 1<<i != optForceTicket {
+					addOpt(v, tick, 1<<i|optForceTicket)
+				}
+			}
+			addOpt(v, tick, optForceTicket|optSCTExt)
+			addOpt(v, tick, optForceTicket|optSCTExt|optNoTickets)
+			addOpt(v, tick, allOn)
+			addOpt(v, tick, allOn&^optNoTickets)
+			addOpt(v, tick, allOn&^optForceTicket)
+			for n := g.N(4, 24); n > 0; n-- {
+				addOpt(v, tick, int(g.Rng.U64())&(1<<optCount-1))
+			}
+		}
+	}
+	// options that matter to a DHE ServerKeyExchange (accepted signature algorithms)
+	for _, id := range []uint16{0x009e, 0x0033, 0xc02f, 0xc02b} {
+		si := suiteByID(id)
+		for _, o := range []int{optSigHashes, optDSA, optSigHashes | optDSA, optSigHashes | optForceTicket} {
+			for vv := 0; vv < len(sigHashVariants); vv++ {
+				add(scen{ver: 12, suite: id, key: keyFor[si.kex][0], opts: o, vari: vv})
+			}
+		}
+	}
+	// ---- ClientHello supplied through Config.ExternalClientHello (TLS <= 1.2), with every subset of the extra extensions
+	for _, v := range []int{10, 11, 12} {
+		for sel := 0; sel < 1<<extCount; sel++ {
+			if g.Quick && sel&(sel-1) != 0 && (sel*7+v)%5 != 0 && sel != 1<<extCount-1 {
+				continue // quick tier: each extension alone, all together and a fifth of the other subsets
+			}
+			add(scen{ver: v, key: []string{"ecdsa", "rsa"}[sel%2], opts: optExternal, vari: sel, alpn: sel % 3 % 2})
+		}
+	}
 	reps := g.N(1, 12)
 	nmut := g.N(6, 60)
 	for rep := 0; rep < reps; rep++ {
 		for i, s := range scens {
 			g.Emitf("c28 hs %s %d", s.String(), rep*len(scens)+i)
 			if s.tick == 2 && rep > 0 {
+				continue
+			}
+			if i >= nBase {
+				// the new scenario classes feed the message kinds they vary into the T2 stream
+				if rep > 0 && g.Rng.Intn(3) != 0 {
+					continue
+				}
+				m := collect(s)
+				if m == nil {
+					continue
+				}
+				if m.ch != nil && i >= nChain {
+					g.Emitf("c28 ch %s", zv.Hex(m.ch))
+					for _, b := range mutate(g.Rng, m.ch, g.N(2, 8)) {
+						g.Emitf("c28 ch %s", zv.Hex(b))
+					}
+				}
+				if m.cert != nil && i < nChain {
+					g.Emitf("c28 cert %s", zv.Hex(m.cert))
+					for _, b := range mutate(g.Rng, m.cert, g.N(3, 12)) {
+						g.Emitf("c28 cert %s", zv.Hex(b))
+					}
+				}
 				continue
 			}
 			m := collect(s)
@@ -344,7 +454,7 @@ func gen(g *zv.Gen) {
 
 func init() {
 	zv.Register(&zv.Prop{ID: "C28", Topic: "c28", Gen: gen, Exec: exec,
-		Rule: "hs: one real client/server handshake per (version x suite x key type x ALPN x ticket/resumption x curve) scenario, log compared with an independent parse of the captured transcript (T3 only); ch/sh/cert/fin/skx: handshake messages taken from such handshakes plus byte/structure mutations of them and synthetic messages, through the real parser+MakeLog (hook) and the Lean log-mapping model; a case is one distinct line"})
+		Rule: "hs: one real client/server handshake per (version x suite x key type x ALPN x ticket/resumption x curve x server chain of 1-4 certificates x set of zcrypto-specific client options [ForceSessionTicketExt, SignedCertificateTimestampExt, ExtendedMasterSecret, ExtendedRandom, HeartbeatEnabled, NoOcspStapling, ClientDSAEnabled, explicit CurvePreferences/SupportedPoints/SignatureAndHashes, ClientRandom, SessionTicketsDisabled, DontBufferHandshakes, InsecureSkipVerify]) scenario, log compared with an independent parse of the captured transcript (T3 only); ch/sh/cert/fin/skx: handshake messages taken from such handshakes plus byte/structure mutations of them and synthetic messages, through the real parser+MakeLog (hook) and the Lean log-mapping model; a case is one distinct line"})
 }
 
 // synth: hand-made messages aimed at single guards of the parsers / log builders.
@@ -446,6 +556,7 @@ func synth(g *zv.Gen) {
 		}
 		g.Emitf("c28 cert %s", zv.Hex(append(append([]byte(nil), m...), 0)))
 	}
+	synthCert13(g)
 	// Finished
 	for n := 0; n <= 16; n++ {
 		vd := g.Rng.Bytes(n)
@@ -459,4 +570,108 @@ func synth(g *zv.Gen) {
 	g.Emit("c28 fin -")
 	g.Emit("c28 fin 14")
 	g.Emit("c28 fin 140000")
+}
+
+// synthCert13: TLS 1.3 Certificate messages (the real ones are encrypted, so they are rebuilt here from the chains
+// the servers of the hs scenarios send): chains of 0..4 certificates x leaf / non-leaf extension sets, then
+// boundary edits of every length byte, truncations and random mutations.
+func synthCert13(g *zv.Gen) {
+	u16 := func(n int) []byte { return []byte{byte(n >> 8), byte(n)} }
+	u24 := func(n int) []byte { return []byte{byte(n >> 16), byte(n >> 8), byte(n)} }
+	cat := func(xs ...[]byte) []byte {
+		var o []byte
+		for _, x := range xs {
+			o = append(o, x...)
+		}
+		return o
+	}
+	ext := func(id int, data []byte) []byte { return cat(u16(id), u16(len(data)), data) }
+	type entry struct{ cert, exts []byte }
+	msg := func(ctx []byte, es ...entry) []byte {
+		var l []byte
+		for _, e := range es {
+			l = cat(l, u24(len(e.cert)), e.cert, u16(len(e.exts)), e.exts)
+		}
+		body := cat([]byte{byte(len(ctx))}, ctx, u24(len(l)), l)
+		return cat([]byte{11}, u24(len(body)), body)
+	}
+	ocsp := func(resp []byte) []byte { return ext(5, cat([]byte{1}, u24(len(resp)), resp)) }
+	sctl := func(scts ...[]byte) []byte {
+		var l []byte
+		for _, s := range scts {
+			l = cat(l, u16(len(s)), s)
+		}
+		return ext(18, cat(u16(len(l)), l))
+	}
+	leafExts := [][]byte{
+		nil, ocsp([]byte{0x30, 3, 1, 2, 3}), sctl([]byte{0, 1, 2, 3}), sctl([]byte{9}, []byte{8, 7}),
+		cat(ocsp([]byte{1}), sctl([]byte{2})), cat(sctl([]byte{2}), ext(0x1234, []byte{5}), ocsp([]byte{1})),
+		ext(0x1234, nil), ext(0x1234, []byte{1, 2, 3}),
+		// rejected on the leaf
+		ocsp(nil), ext(5, []byte{2, 0, 0, 1, 7}), ext(5, nil), ext(5, []byte{1}), ext(5, []byte{1, 0, 0, 2, 7}), ext(5, []byte{1, 0, 0, 1, 7, 7}),
+		sctl(), sctl(nil), sctl([]byte{1}, nil), ext(18, nil), ext(18, []byte{0}), ext(18, []byte{0, 3, 0, 1}), ext(18, []byte{0, 3, 0, 1, 5, 5}),
+		ext(18, []byte{0, 3, 0, 1, 5}), cat(ocsp([]byte{1}), ocsp([]byte{2})), cat(sctl([]byte{1}), sctl([]byte{2})),
+		// malformed extension block structure
+		{0, 5}, {0, 5, 0}, {0, 5, 0, 2, 1}, {0},
+	}
+	var msgs [][]byte
+	for _, key := range []string{"ecdsa", "rsa", "ed25519"} {
+		for n := 0; n <= maxChain; n++ {
+			var chain [][]byte
+			if n > 0 {
+				chain = serverCert(key, n).Certificate
+			}
+			var es []entry
+			for _, c := range chain {
+				es = append(es, entry{cert: c})
+			}
+			msgs = append(msgs, msg(nil, es...))
+			if key != "ecdsa" {
+				continue
+			}
+			// short stand-in certificates keep the lines small; the parser does not look inside cert_data
+			for i := range es {
+				es[i].cert = append([]byte{0x30, byte(i)}, g.Rng.Bytes(1+i)...)
+			}
+			if n == 0 {
+				msgs = append(msgs, msg([]byte{1}), msg([]byte{0, 0}))
+				continue
+			}
+			for _, le := range leafExts {
+				for pos := 0; pos < n; pos++ {
+					es2 := append([]entry(nil), es...)
+					es2[pos].exts = le
+					msgs = append(msgs, msg(nil, es2...))
+				}
+			}
+			es2 := append([]entry(nil), es...)
+			es2[0].cert = nil
+			msgs = append(msgs, msg(nil, es2...), msg([]byte{7}, es...))
+		}
+	}
+	for mi, m := range msgs {
+		g.Emitf("c28 cert13 %s", zv.Hex(m))
+		if len(m) > 400 {
+			for _, b := range mutate(g.Rng, m, g.N(3, 12)) {
+				g.Emitf("c28 cert13 %s", zv.Hex(b))
+			}
+			continue
+		}
+		g.Emitf("c28 cert13 %s", zv.Hex(append(append([]byte(nil), m...), 0)))
+		if mi%12 == 0 || !g.Quick {
+			for i := 4; i < len(m); i++ {
+				b := append([]byte(nil), m...)
+				b[i]++
+				g.Emitf("c28 cert13 %s", zv.Hex(b))
+				b[i] -= 2
+				g.Emitf("c28 cert13 %s", zv.Hex(b))
+			}
+			for n := 0; n < len(m); n++ {
+				g.Emitf("c28 cert13 %s", zv.Hex(m[:n]))
+			}
+		}
+		for _, b := range mutate(g.Rng, m, g.N(2, 10)) {
+			g.Emitf("c28 cert13 %s", zv.Hex(b))
+		}
+	}
 }
